@@ -15,6 +15,7 @@
 package internal
 
 import (
+	"errors"
 	"iter"
 	"maps"
 	"net/http"
@@ -54,8 +55,12 @@ func (r RawDeltaSeconds) Value() (dur time.Duration, valid bool) {
 	}
 	seconds, err := strconv.ParseInt(string(r), 10, 64)
 	if err != nil {
-		return
+		if !errors.Is(err, strconv.ErrRange) {
+			return
+		}
+		seconds = maxDeltaSeconds // too large to represent: saturate
 	}
+	seconds = min(seconds, maxDeltaSeconds) // avoid overflow of time.Duration
 
 	return time.Duration(seconds) * time.Second, true
 }
